@@ -11,7 +11,7 @@ def build_registry():
     specs.register(reg)
     reg.S = S
     import importlib
-    for m in ("c_tick", "c_sync", "c_instrument", "c_track", "c_chart", "c_globalevents", "c_metadata"):
+    for m in ("c_tick", "c_sync", "c_events", "c_instrument", "c_track", "c_chart", "c_globalevents", "c_metadata"):
         try:
             mod = importlib.import_module(f"contracts.{m}")
         except ModuleNotFoundError as e:
